@@ -424,10 +424,16 @@ where
                 .arg(ctx.tier.name())
                 .arg(ctx.seed.to_string())
                 .arg(mine.join(","))
+                // C13 varies the pool size over its worker processes
                 .env(
                     "RAYON_NUM_THREADS",
-                    std::env::var("RAYON_NUM_THREADS")
-                        .unwrap_or_else(|_| "4".into()),
+                    std::env::var("RAYON_NUM_THREADS").unwrap_or_else(|_| {
+                        if ctx.prop == "C13" {
+                            ["1", "2", "4", "16"][w % 4].into()
+                        } else {
+                            "4".into()
+                        }
+                    }),
                 )
                 .stdin(std::process::Stdio::null())
                 .stdout(std::process::Stdio::piped())
